@@ -82,9 +82,28 @@ TraceAccepted == TLCGet(1) = Len(TLog)
 \* them is skipped as stuttering.
 NotReset == ev'.type # "Init"
 
-T_C02_OnlyIssuers  == [][NotReset => C02_OnlyIssuers_Step]_tvars
+\* BEGIN GENERATED STEP WRAPPERS
+T_C02_OnlyIssuers == [][NotReset => C02_OnlyIssuers_Step]_tvars
 T_C02_SealedFrozen == [][NotReset => C02_SealedFrozen_Step]_tvars
-T_C04_Permanence   == [][NotReset => C04_Permanence_Step]_tvars
+T_C04_Permanence == [][NotReset => C04_Permanence_Step]_tvars
+T_C03_Credits == [][NotReset => C03_Credits_Step]_tvars
+T_C03_Coins == [][NotReset => C03_Coins_Step]_tvars
+T_C03_Block == [][NotReset => C03_Block_Step]_tvars
+T_C05_PutMints == [][NotReset => C05_PutMints_Step]_tvars
+T_C05_TakeBurns == [][NotReset => C05_TakeBurns_Step]_tvars
+T_C05_OnlyPutTake == [][NotReset => C05_OnlyPutTake_Step]_tvars
+T_C06_DenomAllowedAtWrite == [][NotReset => C06_DenomAllowedAtWrite_Step]_tvars
+T_C07_Orders == [][NotReset => C07_Orders_Step]_tvars
+T_C07_Credits == [][NotReset => C07_Credits_Step]_tvars
+T_C07_Coins == [][NotReset => C07_Coins_Step]_tvars
+T_C07_NoOtherCoins == [][NotReset => C07_NoOtherCoins_Step]_tvars
+T_C11_PutOnlyIf == [][NotReset => C11_PutOnlyIf_Step]_tvars
+T_C11_PutIf == [][NotReset => C11_PutIf_Step]_tvars
+T_C11_OldestFirst == [][NotReset => C11_OldestFirst_Step]_tvars
+T_C11_AutoRetire == [][NotReset => C11_AutoRetire_Step]_tvars
+T_C12_Expiry == [][NotReset => C12_Expiry_Step]_tvars
+T_C12_NoBuyExpired == [][NotReset => C12_NoBuyExpired_Step]_tvars
+\* END GENERATED STEP WRAPPERS
 
 \* observation-based clauses
 T_C01_WellFormed == Len(ob.malformed) = 0
